@@ -309,6 +309,8 @@ pub struct Cfg {
     pub nest_w: usize,
     pub max_groups: usize,
     pub max_ops: usize,
+    /// Access conditions are used at all (`false`: every access has `conditions: None`).
+    pub conditions: bool,
     pub check_c31: bool,
     pub check_c33: bool,
 }
@@ -475,7 +477,7 @@ impl<C: Cond> World<C> {
         // 0 = read without conditions.
         let l = *ctx::pick("access.level", &[1u8, 0, 2, 3]);
         let l = if l == 3 && !allow_manage { 2 } else { l };
-        let c = ctx::choose("access.cond", 1 + C::COUNT);
+        let c = if self.cfg.conditions { ctx::choose("access.cond", 1 + C::COUNT) } else { 0 };
         Access { level: level_of(l), conditions: if c == 0 { None } else { Some(C::nth(c - 1)) } }
     }
 
@@ -575,7 +577,7 @@ impl<C: Cond> World<C> {
         } else {
             self.reps[r].state.clone()
         };
-        let before = if self.cfg.check_c33 || was_processed { Some(dump_state(&self.reps[r].state)) } else { None };
+        let before = if was_processed || self.ops[seq].byz.is_some() { Some(dump_state(&self.reps[r].state)) } else { None };
         match Crdt::<C>::process(input, &op) {
             Ok(y) => {
                 if was_processed {
@@ -622,6 +624,8 @@ impl<C: Cond> World<C> {
                 self.ops[seq].rejected_by.insert(r, name);
                 if self.ops[seq].byz.is_some() {
                     ctx::probe("byzantine_op_rejected");
+                } else if self.ops[seq].accepted_by.is_empty() {
+                    ctx::probe("honest_op_rejected_by_first_replica");
                 } else {
                     ctx::probe("honest_op_rejected_remotely");
                 }
@@ -696,9 +700,13 @@ impl<C: Cond> World<C> {
             "create" => {
                 let gid = (b'1' + self.groups.len() as u8) as char;
                 let mut initial: Vec<(GroupMember<Id>, Access<C>)> = vec![(GroupMember::Individual(actor), Access::manage())];
-                for i in self.idents.clone() {
+                let root = self.groups.is_empty();
+                for (k, i) in self.idents.clone().into_iter().enumerate() {
                     if i != actor && ctx::chance("create.member", 1, 2) {
-                        initial.push((GroupMember::Individual(i), self.gen_access(true)));
+                        // In the root group the other replicas' identities are often managers, so
+                        // that several actors can act concurrently.
+                        let acc = if root && k < self.reps.len() && ctx::chance("create.manager", 2, 3) { Access::manage() } else { self.gen_access(true) };
+                        initial.push((GroupMember::Individual(i), acc));
                     }
                 }
                 if !known.is_empty() && ctx::chance("create.subgroup", 1, 4) {
@@ -791,7 +799,7 @@ impl<C: Cond> World<C> {
             .filter(|i| !Self::is_active_in(&v1, &GroupMember::Individual(*i)) && !Self::is_active_in(&v2, &GroupMember::Individual(*i)))
             .collect();
         let present: Vec<(GroupMember<Id>, u8)> = v1.iter().filter(|e| v2.contains(e)).map(|(m, l, _)| (*m, *l)).collect();
-        let kind = wchoose("conflict.kind", &[("same_level", 6), ("remove_vs_modify", 3), ("modify_vs_modify", 2), ("mutual_remove", 1), ("remove_vs_act", 1)])?;
+        let Some(kind) = wchoose("conflict.kind", &[("same_level", 6), ("remove_vs_modify", 3), ("modify_vs_modify", 2), ("mutual_remove", 1), ("remove_vs_act", 1)]) else { return false };
         let (a1, a2): (GroupAction<Id, C>, GroupAction<Id, C>) = match kind {
             "same_level" => {
                 // conditions: (none, some) first — the suspicious comparison.
@@ -800,6 +808,7 @@ impl<C: Cond> World<C> {
                 let c0 = C::nth(0);
                 let c1 = C::nth(C::COUNT - 1);
                 let (ca, cb) = match pair {
+                    _ if !self.cfg.conditions => (None, None),
                     0 => (None, Some(c0)),
                     1 => (Some(c0), None),
                     2 => (Some(c0), Some(c1)),
@@ -826,7 +835,7 @@ impl<C: Cond> World<C> {
                     return false;
                 }
                 let (t, cur) = present[ctx::choose("conflict.target", present.len())];
-                let mut mk = |w: &mut Self| {
+                let mk = |w: &mut Self| {
                     let acc = w.gen_access(!t.is_group());
                     if lvl(&acc.level) >= cur { GroupAction::Promote { member: t, access: acc } } else { GroupAction::Demote { member: t, access: acc } }
                 };
@@ -1431,31 +1440,127 @@ impl<C: Cond> World<C> {
         }
     }
 
-    /// Describe the first difference between two views and attribute it.
-    fn attribute_diff(&self, a: &Views<C>, b: &Views<C>) -> (&'static str, String, String) {
-        for (g, (ra, ma)) in &a.groups {
-            let (rb, mb) = &b.groups[g];
-            if ra != rb {
-                let ka: BTreeMap<_, _> = ra.iter().map(|(m, l, c)| (*m, (*l, c.clone()))).collect();
-                let kb: BTreeMap<_, _> = rb.iter().map(|(m, l, c)| (*m, (*l, c.clone()))).collect();
-                let all: BTreeSet<_> = ka.keys().chain(kb.keys()).copied().collect();
-                for m in all {
-                    let (x, y) = (ka.get(&m), kb.get(&m));
-                    if x == y {
-                        continue;
-                    }
-                    let what = match (x, y) {
-                        (Some(x), Some(y)) if x.0 == y.0 => "same level, different conditions",
-                        (Some(_), Some(_)) => "different access levels",
-                        _ => "member present on one replica only",
-                    };
-                    let cats: Vec<&str> = self.pair_categories(*g, &m).into_iter().collect();
-                    let site = if cats.is_empty() { format!("{what}; no concurrent operations target that member") } else { format!("{what}; after concurrent {}", cats.join(" + ")) };
-                    return ("root-members-differ", site, format!("g{g}: {} is {} vs {}", show_member(&m), x.map(|x| show_acc(x.0, &x.1)).unwrap_or("absent".into()), y.map(|y| show_acc(y.0, &y.1)).unwrap_or("absent".into())));
+    /// `true` if the crate's own `PartialOrd` does not order some pair of (different) accesses
+    /// consistently (`a < b` and `b < a` both hold, or neither): a "take the lower one" tie-break
+    /// over such a pair depends on which one comes first.
+    fn has_inconsistent_pair(v: &[(u8, Option<C>)]) -> bool {
+        for (i, x) in v.iter().enumerate() {
+            for y in v.iter().skip(i + 1) {
+                if x == y {
+                    continue;
+                }
+                let a: Access<C> = Access { level: level_of(x.0), conditions: x.1.clone() };
+                let b: Access<C> = Access { level: level_of(y.0), conditions: y.1.clone() };
+                if (a < b) == (b < a) {
+                    return true;
                 }
             }
-            if ma != mb {
-                return ("members-differ", "transitive members() differ while root_members agree for every group (members_inner combines access along nesting paths)".into(), format!("g{g}: [{}] vs [{}]", show_mem(ma), show_mem(mb)));
+        }
+        false
+    }
+
+    /// Accesses that accepted operations assigned (create / add / promote / demote), filtered by
+    /// group and by member.
+    fn assigned(&self, g: Option<Id>, pred: impl Fn(&GroupMember<Id>) -> bool) -> Vec<(u8, Option<C>)> {
+        let mut out: BTreeSet<(u8, Option<C>)> = BTreeSet::new();
+        for o in &self.ops {
+            if o.accepted_by.is_empty() || g.map(|g| g != o.op.group_id).unwrap_or(false) {
+                continue;
+            }
+            match &o.op.action {
+                GroupAction::Create { initial_members } => {
+                    for (m, a) in initial_members {
+                        if pred(m) {
+                            out.insert((lvl(&a.level), a.conditions.clone()));
+                        }
+                    }
+                }
+                GroupAction::Add { member, access } | GroupAction::Promote { member, access } | GroupAction::Demote { member, access } => {
+                    if pred(member) {
+                        out.insert((lvl(&access.level), access.conditions.clone()));
+                    }
+                }
+                GroupAction::Remove { .. } => {}
+            }
+        }
+        out.into_iter().collect()
+    }
+
+    fn first_diff<K: Ord + Copy>(a: &[(K, u8, Option<C>)], b: &[(K, u8, Option<C>)]) -> Option<(K, Option<(u8, Option<C>)>, Option<(u8, Option<C>)>)> {
+        let ka: BTreeMap<K, (u8, Option<C>)> = a.iter().map(|(m, l, c)| (*m, (*l, c.clone()))).collect();
+        let kb: BTreeMap<K, (u8, Option<C>)> = b.iter().map(|(m, l, c)| (*m, (*l, c.clone()))).collect();
+        let all: BTreeSet<K> = ka.keys().chain(kb.keys()).copied().collect();
+        for m in all {
+            if ka.get(&m) != kb.get(&m) {
+                return Some((m, ka.get(&m).cloned(), kb.get(&m).cloned()));
+            }
+        }
+        None
+    }
+
+    fn show_opt(x: &Option<(u8, Option<C>)>) -> String {
+        x.as_ref().map(|x| show_acc(x.0, &x.1)).unwrap_or("absent".into())
+    }
+
+    fn site_root(&self, g: Id, m: &GroupMember<Id>, x: &Option<(u8, Option<C>)>, y: &Option<(u8, Option<C>)>) -> (&'static str, String) {
+        let cats: Vec<&str> = self.pair_categories(g, m).into_iter().collect();
+        let after = if cats.is_empty() { "no concurrent operations target that member".to_string() } else { format!("after concurrent {}", cats.join(" + ")) };
+        if x.is_none() || y.is_none() {
+            return ("reported-membership-differs", format!("root_members: member reported on one side only; {after}"));
+        }
+        if Self::has_inconsistent_pair(&self.assigned(Some(g), |t| t == m)) {
+            return (
+                "reported-access-differs",
+                "root_members: the accesses concurrently assigned to the member are not consistently ordered by Access::partial_cmp (a<b == b<a for some pair), so the take-the-lower tie-break in state::merge depends on argument order, i.e. on HashSet iteration order of the heads / on delivery order".into(),
+            );
+        }
+        ("reported-access-differs", format!("root_members: assigned accesses are consistently ordered by Access::partial_cmp; {after}"))
+    }
+
+    fn site_transitive(&self, i: Id, x: &Option<(u8, Option<C>)>, y: &Option<(u8, Option<C>)>) -> (&'static str, String) {
+        if x.is_none() || y.is_none() {
+            return ("reported-membership-differs", "members (transitive): individual reported on one side only while root_members are stable".into());
+        }
+        let rel = self.assigned(None, |t| *t == GroupMember::Individual(i) || t.is_group());
+        if Self::has_inconsistent_pair(&rel) {
+            return (
+                "reported-access-differs",
+                "members (transitive) with stable root_members: the accesses met along the nesting paths are not consistently ordered by Access::partial_cmp (a<b == b<a for some pair), so the cap/maximum computed in members_inner depends on HashMap iteration order".into(),
+            );
+        }
+        ("reported-access-differs", "members (transitive) with stable root_members: accesses along the nesting paths are consistently ordered by Access::partial_cmp".into())
+    }
+
+    /// Describe the first difference between two views and attribute it: (clause, site, detail).
+    /// `states` are the replica states behind the views (for re-sampling root_members: a members()
+    /// difference is attributed to nesting only if root_members are stable).
+    fn attribute_diff(&self, a: &Views<C>, b: &Views<C>, states: &[&State<C>]) -> (&'static str, String, String) {
+        for (g, (ra, _)) in &a.groups {
+            let (rb, _) = &b.groups[g];
+            if let Some((m, x, y)) = Self::first_diff(ra, rb) {
+                let (clause, site) = self.site_root(*g, &m, &x, &y);
+                return (clause, site, format!("root_members(g{g}): {} is {} vs {}", show_member(&m), Self::show_opt(&x), Self::show_opt(&y)));
+            }
+        }
+        for (g, (_, ma)) in &a.groups {
+            let (_, mb) = &b.groups[g];
+            if let Some((i, x, y)) = Self::first_diff(ma, mb) {
+                let detail = format!("members(g{g}): {i} is {} vs {}", Self::show_opt(&x), Self::show_opt(&y));
+                // Are the root views behind it stable?
+                for st in states {
+                    for k in 0..6 {
+                        let twin = if k % 2 == 0 { reload(st) } else { (*st).clone() };
+                        for (g2, (r0, _)) in &a.groups {
+                            let r = root_view(&twin, *g2);
+                            if let Some((m, x2, y2)) = Self::first_diff(r0, &r) {
+                                let (clause, site) = self.site_root(*g2, &m, &x2, &y2);
+                                return (clause, site, format!("{detail}; root_members(g{g2}) is itself unstable: {} is {} vs {}", show_member(&m), Self::show_opt(&x2), Self::show_opt(&y2)));
+                            }
+                        }
+                    }
+                }
+                let (clause, site) = self.site_transitive(i, &x, &y);
+                return (clause, site, format!("{detail} (root_members of every group stable over 6 re-reads)"));
             }
         }
         ("views-differ", "unattributed".into(), String::new())
@@ -1465,15 +1570,16 @@ impl<C: Cond> World<C> {
     /// CBOR-reloaded twin of each replica.
     fn check_convergence(&mut self, final_check: bool) {
         let groups = self.groups.clone();
-        let mut by_set: BTreeMap<Vec<usize>, Vec<(String, Views<C>)>> = BTreeMap::new();
-        for rep in &self.reps {
+        // (name, views, index of the replica or usize::MAX for the canonical one)
+        let mut by_set: BTreeMap<Vec<usize>, Vec<(String, Views<C>, usize)>> = BTreeMap::new();
+        for (ri, rep) in self.reps.iter().enumerate() {
             let v1 = views_of(&rep.state, &groups);
             // Repeated queries on one replica.
             for _ in 0..2 {
                 let v2 = views_of(&rep.state, &groups);
                 if v2 != v1 {
-                    let (_, site, detail) = self.attribute_diff(&v1, &v2);
-                    violation("repeated-query-differs", &site, format!("replica {} asked twice: {detail}", rep.actor));
+                    let (clause, site, detail) = self.attribute_diff(&v1, &v2, &[&rep.state]);
+                    violation(clause, &site, format!("replica {} asked twice in a row: {detail}", rep.actor));
                 }
             }
             if final_check {
@@ -1481,12 +1587,13 @@ impl<C: Cond> World<C> {
                 let twin = reload(&rep.state);
                 let v3 = views_of(&twin, &groups);
                 if v3 != v1 {
-                    let (_, site, detail) = self.attribute_diff(&v1, &v3);
-                    violation("same-order-replica-differs", &site, format!("replica {} vs its CBOR-reloaded twin: {detail}", rep.actor));
+                    let (clause, site, detail) = self.attribute_diff(&v1, &v3, &[&rep.state]);
+                    violation(clause, &site, format!("replica {} vs its CBOR-reloaded twin (same operations, same order): {detail}", rep.actor));
                 }
             }
-            by_set.entry(rep.processed.iter().copied().collect()).or_default().push((rep.actor.to_string(), v1));
+            by_set.entry(rep.processed.iter().copied().collect()).or_default().push((rep.actor.to_string(), v1, ri));
         }
+        let mut canonical: Option<State<C>> = None;
         if final_check {
             // A canonical replica: all accepted operations in creation order, on another thread
             // (other hasher keys).
@@ -1500,30 +1607,39 @@ impl<C: Cond> World<C> {
                     let mut y = Crdt::<C>::init();
                     let mut done = vec![];
                     for (k, op) in ops.iter().enumerate() {
-                        match Crdt::<C>::process(y.clone(), op) {
-                            Ok(n) => {
-                                y = n;
-                                done.push(k);
-                            }
-                            Err(_) => {}
+                        if let Ok(n) = Crdt::<C>::process(y.clone(), op) {
+                            y = n;
+                            done.push(k);
                         }
                     }
-                    (done, views_of(&y, &g2))
+                    let v = views_of(&y, &g2);
+                    (done, v, y)
                 })
                 .expect("spawn canonical");
             match h.join() {
-                Ok((done, v)) => {
+                Ok((done, v, y)) => {
                     let set: Vec<usize> = done.into_iter().map(|k| accepted[k]).collect();
-                    by_set.entry(set).or_default().push(("canonical".into(), v));
+                    by_set.entry(set).or_default().push(("canonical".into(), v, usize::MAX));
+                    canonical = Some(y);
                 }
                 Err(p) => std::panic::resume_unwind(p),
             }
         }
-        for (_, group) in &by_set {
-            for (name, v) in group.iter().skip(1) {
+        for (set, group) in &by_set {
+            for (name, v, idx) in group.iter().skip(1) {
                 if *v != group[0].1 {
-                    let (clause, site, detail) = self.attribute_diff(&group[0].1, v);
-                    violation(clause, &site, format!("replicas {} and {} processed the same {} operations: {detail}", group[0].0, name, self.reps[0].processed.len().max(1)));
+                    let mut states: Vec<&State<C>> = vec![];
+                    for i in [group[0].2, *idx] {
+                        if i == usize::MAX {
+                            if let Some(c) = &canonical {
+                                states.push(c);
+                            }
+                        } else {
+                            states.push(&self.reps[i].state);
+                        }
+                    }
+                    let (clause, site, detail) = self.attribute_diff(&group[0].1, v, &states);
+                    violation(clause, &site, format!("replicas {} and {} processed the same {} operations: {detail}", group[0].0, name, set.len()));
                 }
             }
         }
@@ -1574,6 +1690,9 @@ impl<C: Cond> World<C> {
             ev!("undeliverable (dependencies refused there): {}", stuck.join(" "));
         }
         self.probe_history();
+        if self.ops.iter().filter(|o| !o.accepted_by.is_empty()).count() >= 4 {
+            ctx::mark_nontrivial();
+        }
         if self.cfg.check_c31 {
             self.check_convergence(true);
         }
